@@ -56,6 +56,7 @@ PROP = {  # commit subject prefix -> (property, what failed)
     "fix: a Str is only added to a Str": ("C04", "'print(\"a\" + 1)' was accepted (the stub of str.__add__ took a union of all primitives) and failed with TypeError: can only concatenate str (former finding C04-F2: 36-61 edits of the quick tier)"),
     "fix: the constructor call of a raise statement is checked": ("C04", "'raise E(undefined_name)', a wrong number of arguments or a wrongly typed argument in a raise was accepted and failed at run time with NameError / TypeError (former finding C04-F1: 24 edits of the quick tier) - the raised constructor call was never visited"),
     "fix: unary minus is typed by the operand": ("C04", "'-\"s\"', '-None', '-[1]' were accepted and failed with TypeError: bad operand type for unary -, while 'print(-2)' was refused ('Cannot infer type'): a negation generated no constraint at all (the unary-minus half of finding C04-F3; the over-rejection was observation 17 of Appendix A)"),
+    "fix: the default operator takes any left side": ("C06", "'nf() ? 1' and '(if c then 1 else None) ? 1' were refused ('expected a None, was an Int'; former finding C06-F1: 54 cases of the quick tier): the constraint 'left side >= None' forces the operand to be None as soon as its expression has been replaced by a type; the operand is no longer constrained (a default after a non-nullable operand is now accepted too - harmless)"),
     "fix: the type of a function without arguments is annotated": ("C02", "'def f(b: () -> Str)' was annotated 'Callable[, str]' with annotate on (valid/function/definition.mamba and its mutants: invalid Python under one setting only, seen by C11 as parsability-differs)"),
     "fix: a class argument that is also handed to a parent": ("C01", "'class Ch(def y: Int): Pa, Ot(y)' with a method reading self.y was accepted and failed with AttributeError: the synthesised constructor skipped 'self.y = y' for every class argument that also appears among a parent's arguments (found by the inheritance matrix: 3 parent kinds x child with a second parent)"),
     "fix: the output directory is created with its missing parents": ("C13", "'-o out/py' with a missing parent 'out' failed a valid project with 'No such file or directory (os error 2)' and no diagnostic (custom layout, 310 transitions of the thorough BFS)"),
